@@ -264,71 +264,76 @@ func ruleFrmVariadic(c *Ctx, r *R) {
 	}
 	// no surplus argument: the variadic parameter is the nil slice (xs == nil), not an empty one
 	nilWhenNone := false
-	ast.Inspect(fd.Body, func(n ast.Node) bool {
-		ifs, ok := n.(*ast.IfStmt)
-		if !ok {
-			return true
-		}
-		be, ok := unparen(ifs.Cond).(*ast.BinaryExpr)
-		if !ok || be.Op != token.EQL {
-			return true
-		}
-		if z, ok := c.ConstInt(be.Y); !ok || z != 0 {
-			return true
-		}
-		ast.Inspect(ifs.Body, func(m ast.Node) bool {
-			if cl, ok := m.(*ast.CompositeLit); ok && isNamed(c.TypeOf(cl), "Value") {
-				hasT, hasValue := false, false
-				for _, el := range cl.Elts {
-					if kv, ok := el.(*ast.KeyValueExpr); ok {
-						switch types.ExprString(kv.Key) {
-						case "t":
-							hasT = true
-						case "value":
-							hasValue = true
+	for _, hfd := range c.withHelpers(fd) {
+		ast.Inspect(hfd.Body, func(n ast.Node) bool {
+			ifs, ok := n.(*ast.IfStmt)
+			if !ok {
+				return true
+			}
+			be, ok := unparen(ifs.Cond).(*ast.BinaryExpr)
+			if !ok || be.Op != token.EQL {
+				return true
+			}
+			if z, ok := c.ConstInt(be.Y); !ok || z != 0 {
+				return true
+			}
+			ast.Inspect(ifs.Body, func(m ast.Node) bool {
+				if cl, ok := m.(*ast.CompositeLit); ok && isNamed(c.TypeOf(cl), "Value") {
+					hasT, hasValue := false, false
+					for _, el := range cl.Elts {
+						if kv, ok := el.(*ast.KeyValueExpr); ok {
+							switch types.ExprString(kv.Key) {
+							case "t":
+								hasT = true
+							case "value":
+								hasValue = true
+							}
 						}
 					}
+					if hasT && !hasValue {
+						nilWhenNone = true
+					}
 				}
-				if hasT && !hasValue {
-					nilWhenNone = true
-				}
-			}
+				return true
+			})
 			return true
 		})
-		return true
-	})
+	}
 	r.check(nilWhenNone, "variadic-nil", pos, "a variadic call without surplus arguments passes the typed nil slice",
 		"`call` packs an empty, non-nil slice when a variadic function gets no surplus argument: func opts(o ...string) with `if o == nil` takes the wrong branch for opts() (Go passes nil)")
 	// the packed slice is freshly made and filled by copy
 	fresh := false
-	ast.Inspect(fd.Body, func(n ast.Node) bool {
-		if call, ok := n.(*ast.CallExpr); ok && (c.CalleeName(call) == "NewSlice" || c.CalleeName(call) == "newSlice") && len(call.Args) == 2 {
-			if id, ok := unparen(call.Args[1]).(*ast.Ident); ok {
-				mk, cp := false, false
-				ast.Inspect(fd.Body, func(k ast.Node) bool {
-					switch x := k.(type) {
-					case *ast.AssignStmt:
-						if lid, ok := x.Lhs[0].(*ast.Ident); ok && c.Obj(lid) == c.Obj(id) && len(x.Rhs) == 1 {
-							if mc, ok := unparen(x.Rhs[0]).(*ast.CallExpr); ok && c.CalleeName(mc) == "builtin.make" {
-								mk = true
-							} else if ok && c.returnsFreshCopy(c.DeclOf(c.Callee(mc))) {
-								mk, cp = true, true // a helper that makes a slice, copies into it and returns it
+	for _, hfd := range c.withHelpers(fd) {
+		hfd := hfd
+		ast.Inspect(hfd.Body, func(n ast.Node) bool {
+			if call, ok := n.(*ast.CallExpr); ok && (c.CalleeName(call) == "NewSlice" || c.CalleeName(call) == "newSlice") && len(call.Args) == 2 {
+				if id, ok := unparen(call.Args[1]).(*ast.Ident); ok {
+					mk, cp := false, false
+					ast.Inspect(hfd.Body, func(k ast.Node) bool {
+						switch x := k.(type) {
+						case *ast.AssignStmt:
+							if lid, ok := x.Lhs[0].(*ast.Ident); ok && c.Obj(lid) == c.Obj(id) && len(x.Rhs) == 1 {
+								if mc, ok := unparen(x.Rhs[0]).(*ast.CallExpr); ok && c.CalleeName(mc) == "builtin.make" {
+									mk = true
+								} else if ok && c.returnsFreshCopy(c.DeclOf(c.Callee(mc))) {
+									mk, cp = true, true // a helper that makes a slice, copies into it and returns it
+								}
+							}
+						case *ast.CallExpr:
+							if c.CalleeName(x) == "builtin.copy" {
+								if did, ok := unparen(x.Args[0]).(*ast.Ident); ok && c.Obj(did) == c.Obj(id) {
+									cp = true
+								}
 							}
 						}
-					case *ast.CallExpr:
-						if c.CalleeName(x) == "builtin.copy" {
-							if did, ok := unparen(x.Args[0]).(*ast.Ident); ok && c.Obj(did) == c.Obj(id) {
-								cp = true
-							}
-						}
-					}
-					return true
-				})
-				fresh = mk && cp
+						return true
+					})
+					fresh = mk && cp
+				}
 			}
-		}
-		return true
-	})
+			return true
+		})
+	}
 	r.check(fresh, "variadic-copy", pos, "surplus arguments are copied into a fresh slice", "the packed variadic slice aliases the operand stack (no make+copy): the next push overwrites the callee's arguments")
 }
 
